@@ -9,6 +9,7 @@ import (
 	"encoding/hex"
 	"fmt"
 	"net"
+	"sort"
 	"strconv"
 	"strings"
 
@@ -28,6 +29,64 @@ var plainTypes = map[uint16]string{
 	wm.TDHCID: "DHCID", wm.TOPENPGPKEY: "OPENPGPKEY", wm.TTLSA: "TLSA", wm.TSMIMEA: "SMIMEA", wm.TTALINK: "TALINK", wm.TZONEMD: "ZONEMD",
 	wm.TUINFO: "UINFO", wm.TUID: "UID", wm.TGID: "GID", wm.TEID: "EID", wm.TNIMLOC: "NIMLOC", wm.TL32: "L32", wm.TLP: "LP", wm.TURI: "URI",
 	wm.TCAA: "CAA", wm.TGPOS: "GPOS",
+	wm.TNSEC: "NSEC", wm.TNSEC3: "NSEC3", wm.TNSEC3PARAM: "NSEC3PARAM", wm.TCSYNC: "CSYNC",
+}
+
+// mnemonics an independent reader/writer of type bitmaps needs (IANA registry); every other type
+// is written TYPEnnn (RFC 3597)
+var bitmapMnemonic = map[uint16]string{1: "A", 2: "NS", 3: "MD", 4: "MF", 5: "CNAME", 6: "SOA", 7: "MB", 8: "MG", 9: "MR", 10: "NULL", 12: "PTR",
+	13: "HINFO", 14: "MINFO", 15: "MX", 16: "TXT", 17: "RP", 18: "AFSDB", 19: "X25", 20: "ISDN", 21: "RT", 23: "NSAP-PTR", 24: "SIG", 25: "KEY",
+	26: "PX", 27: "GPOS", 28: "AAAA", 29: "LOC", 30: "NXT", 31: "EID", 32: "NIMLOC", 33: "SRV", 34: "ATMA", 35: "NAPTR", 36: "KX", 37: "CERT",
+	39: "DNAME", 41: "OPT", 42: "APL", 43: "DS", 44: "SSHFP", 45: "IPSECKEY", 46: "RRSIG", 47: "NSEC", 48: "DNSKEY", 49: "DHCID", 50: "NSEC3",
+	51: "NSEC3PARAM", 52: "TLSA", 53: "SMIMEA", 55: "HIP", 56: "NINFO", 57: "RKEY", 58: "TALINK", 59: "CDS", 60: "CDNSKEY", 61: "OPENPGPKEY",
+	62: "CSYNC", 63: "ZONEMD", 64: "SVCB", 65: "HTTPS", 99: "SPF", 100: "UINFO", 101: "UID", 102: "GID", 103: "UNSPEC", 104: "NID", 105: "L32",
+	106: "L64", 107: "LP", 108: "EUI48", 109: "EUI64", 128: "NXNAME", 249: "TKEY", 250: "TSIG", 251: "IXFR", 252: "AXFR", 253: "MAILB",
+	254: "MAILA", 255: "ANY", 256: "URI", 257: "CAA", 258: "AVC", 260: "AMTRELAY", 261: "RESINFO", 32768: "TA", 32769: "DLV"}
+
+// errMnemonic: a type mnemonic this reader's table does not hold (not an error of the text)
+var errMnemonic = fmt.Errorf("type mnemonic outside the independent reader's table")
+
+const base32hexAlphabet = "0123456789ABCDEFGHIJKLMNOPQRSTUV"
+
+// base32hex without padding (RFC 4648 section 7), written out here so that the reader and writer do
+// not share code with the library
+func b32hexEncode(b []byte) string {
+	var sb strings.Builder
+	acc, bits := 0, 0
+	for _, c := range b {
+		acc = acc<<8 | int(c)
+		bits += 8
+		for bits >= 5 {
+			sb.WriteByte(base32hexAlphabet[acc>>(bits-5)&31])
+			bits -= 5
+		}
+	}
+	if bits > 0 {
+		sb.WriteByte(base32hexAlphabet[acc<<(5-bits)&31])
+	}
+	return sb.String()
+}
+
+func b32hexDecode(s string) ([]byte, error) {
+	var out []byte
+	acc, bits := 0, 0
+	for i := 0; i < len(s); i++ {
+		c := s[i]
+		if c >= 'a' && c <= 'z' {
+			c -= 'a' - 'A'
+		}
+		v := strings.IndexByte(base32hexAlphabet, c)
+		if v < 0 {
+			return nil, fmt.Errorf("not base32hex: %q", s)
+		}
+		acc = acc<<5 | v
+		bits += 5
+		if bits >= 8 {
+			out = append(out, byte(acc>>(bits-8)))
+			bits -= 8
+		}
+	}
+	return out, nil
 }
 
 var classMnemonic = map[uint16]string{1: "IN", 2: "CS", 3: "CH", 4: "HS", 254: "NONE"}
@@ -225,6 +284,50 @@ func readRecord(line string) ([]byte, error) {
 			default:
 				return nil, fmt.Errorf("unsupported representation")
 			}
+		case wm.L8:
+			it, err := take()
+			if err != nil {
+				return nil, err
+			}
+			switch {
+			case spec.R == wm.ReprHex && it.text == "-":
+				f.B = []byte{}
+			case spec.R == wm.ReprHex:
+				if f.B, err = hex.DecodeString(it.text); err != nil {
+					return nil, fmt.Errorf("%s: %v", spec.Go, err)
+				}
+			case spec.R == wm.ReprB32:
+				if f.B, err = b32hexDecode(it.text); err != nil {
+					return nil, fmt.Errorf("%s: %v", spec.Go, err)
+				}
+			default:
+				return nil, fmt.Errorf("unsupported representation")
+			}
+		case wm.Bitmap:
+			if !last {
+				return nil, fmt.Errorf("bitmap in the middle")
+			}
+			for len(rest) > 0 {
+				it, _ := take()
+				found := false
+				for code, m := range bitmapMnemonic {
+					if strings.EqualFold(m, it.text) {
+						f.T, found = append(f.T, code), true
+					}
+				}
+				if !found {
+					if len(it.text) > 4 && strings.EqualFold(it.text[:4], "TYPE") {
+						v, err := strconv.ParseUint(it.text[4:], 10, 16)
+						if err != nil {
+							return nil, fmt.Errorf("bitmap item %q", it.text)
+						}
+						f.T = append(f.T, uint16(v))
+					} else {
+						return nil, fmt.Errorf("bitmap item %q: %w", it.text, errMnemonic)
+					}
+				}
+			}
+			sort.Slice(f.T, func(i, j int) bool { return f.T[i] < f.T[j] })
 		default:
 			return nil, fmt.Errorf("kind %d is not plainly presented", spec.K)
 		}
@@ -416,6 +519,45 @@ func writeRecord(t *rapid.T, r wm.Rec) string {
 				sb.WriteString(strings.Join(parts, ":"))
 			} else {
 				sb.WriteString(ip.String())
+			}
+		case wm.L8:
+			var h string
+			switch {
+			case spec.R == wm.ReprHex && len(f.B) == 0:
+				h = "-"
+			case spec.R == wm.ReprHex:
+				h = hex.EncodeToString(f.B)
+			default:
+				h = b32hexEncode(f.B)
+			}
+			// hex and base32hex digits are case-insensitive (RFC 4648 section 3.3, RFC 5155 section 3.3)
+			switch rapid.IntRange(0, 2).Draw(t, "digitcase") {
+			case 0:
+				h = strings.ToUpper(h)
+			case 1:
+				h = strings.ToLower(h)
+			default:
+				b := []byte(h)
+				for i := range b {
+					if rapid.Bool().Draw(t, "dc") {
+						b[i] = strings.ToLower(string(b[i]))[0]
+					} else {
+						b[i] = strings.ToUpper(string(b[i]))[0]
+					}
+				}
+				h = string(b)
+			}
+			sb.WriteString(h)
+		case wm.Bitmap:
+			for j, code := range f.T {
+				if j > 0 {
+					sep()
+				}
+				if m, ok := bitmapMnemonic[code]; ok && rapid.IntRange(0, 3).Draw(t, "bmnum") != 0 {
+					sb.WriteString(spellKeyword(t, m))
+				} else {
+					sb.WriteString(spellKeyword(t, fmt.Sprintf("TYPE%d", code)))
+				}
 			}
 		case wm.Rest:
 			switch spec.R {
